@@ -62,6 +62,29 @@ def sum_ext(ex, st):
     return st.assume(*facts)
 
 
+@lemma('sum_pad')
+def sum_pad(ex, st):
+    """sum of a list extended by k copies of the constant c in {-1, 0} (induction-proved: SUMR.pad.*), and
+    0 <= SUMR <= n for lists of numbers in [0, 1] (SUMR.bounds.*).  Instantiated for the sums on the path / in the clauses."""
+    facts = []
+    i = z3.Int('i!sp')
+    terms = ex.sum_terms
+    for (a, n) in terms:
+        facts.append(z3.Implies(z3.And(n >= 0, z3.ForAll([i], z3.Implies(z3.And(i >= 0, i < n), z3.And(Z.num(z3.Select(a, i)) >= 0, Z.num(z3.Select(a, i)) <= 1)))),
+                                z3.And(Z.SUMR(a, n) >= 0, Z.SUMR(a, n) <= z3.ToReal(n))))
+        facts.append(z3.Implies(n <= 0, Z.SUMR(a, n) == 0))
+    for (a1, n1) in terms:
+        for (a2, n2) in terms:
+            if a1.eq(a2) and n1.eq(n2):
+                continue
+            same_prefix = z3.ForAll([i], z3.Implies(z3.And(i >= 0, i < n1), Z.num(z3.Select(a2, i)) == Z.num(z3.Select(a1, i))))
+            for c in (-1, 0):
+                tail = z3.ForAll([i], z3.Implies(z3.And(i >= n1, i < n2), Z.num(z3.Select(a2, i)) == c))
+                facts.append(z3.Implies(z3.And(n1 >= 0, n2 >= n1, same_prefix, tail),
+                                        Z.SUMR(a2, n2) == Z.SUMR(a1, n1) + c * z3.ToReal(n2 - n1)))
+    return st.assume(*facts)
+
+
 def pw_facts(x, m, n):
     """the instantiated statement of the PW lemma for 0<=x<=1, 0<=m<=n (used by spec-level lemmas)"""
     return [z3.Implies(n == 0, Z.PW(x, n) == 1), z3.Implies(n == 1, Z.PW(x, n) == x), z3.Implies(z3.And(x >= 0, x <= 1, m >= 0, n >= m),
@@ -105,6 +128,17 @@ def prove_builtin(timeout_ms=10000):
     prove('SUMR.ext.base', [n <= 0] + Z.sumr_def(a, n) + Z.sumr_def(b2, n), Z.SUMR(a, n) == Z.SUMR(b2, n))
     prove('SUMR.ext.step', [n >= 0, Z.SUMR(a, n) == Z.SUMR(b2, n), Z.num(z3.Select(a, n)) == Z.num(z3.Select(b2, n))]
           + Z.sumr_def(a, n) + Z.sumr_def(b2, n), Z.SUMR(a, n + 1) == Z.SUMR(b2, n + 1))
+    # padding: SUMR(b, n+k) = SUMR(a, n) + c*k when b agrees with a below n and is the constant c on [n, n+k)  (c = -1, 0)
+    kk = z3.Int('kk')
+    for c in (-1, 0):
+        prove('SUMR.pad.base[c=%d]' % c, [n >= 0, Z.SUMR(b2, n) == Z.SUMR(a, n)], Z.SUMR(b2, n + 0) == Z.SUMR(a, n) + c * 0)
+        prove('SUMR.pad.step[c=%d]' % c, [n >= 0, kk >= 0, Z.SUMR(b2, n + kk) == Z.SUMR(a, n) + c * z3.ToReal(kk),
+                                          Z.num(z3.Select(b2, n + kk)) == c] + Z.sumr_def(b2, n + kk),
+              Z.SUMR(b2, n + kk + 1) == Z.SUMR(a, n) + c * z3.ToReal(kk + 1))
+    # bounds: entries in [0,1] => 0 <= SUMR(a, n) <= n
+    prove('SUMR.bounds.base', Z.sumr_def(a, z3.IntVal(0)), z3.And(Z.SUMR(a, 0) >= 0, Z.SUMR(a, 0) <= 0))
+    prove('SUMR.bounds.step', [n >= 0, Z.SUMR(a, n) >= 0, Z.SUMR(a, n) <= z3.ToReal(n), Z.num(z3.Select(a, n)) >= 0, Z.num(z3.Select(a, n)) <= 1]
+          + Z.sumr_def(a, n), z3.And(Z.SUMR(a, n + 1) >= 0, Z.SUMR(a, n + 1) <= z3.ToReal(n + 1)))
     # prefix counts PC(k) = sum_{i<k} L(i) with L >= 0: monotone -- i < k => PC(i) + L(i) <= PC(k), by induction on k
     PCf = z3.Function('PCf', Z.I, Z.I)
     Lf = z3.Function('Lf', Z.I, Z.I)
@@ -116,4 +150,7 @@ def prove_builtin(timeout_ms=10000):
     y = z3.Real('y')
     for k, f in enumerate(Z.mul_facts(x, y, x * y)):
         prove('MUL.fact%d' % k, [], f)
+    q = z3.Real('q')
+    for k, f in enumerate(Z.div_facts(x, y, q)):
+        prove('DIV.fact%d' % k, [z3.Implies(y != 0, q * y == x)], f)
     return out
